@@ -21,7 +21,7 @@ func init() {
 			"(b) every sequence over {Write(piece), Flush}^<=d (d = 2 quick, 4 thorough) followed by Close with pieces chosen to hit the buffer-fill, slide, block-cap and wrap situations; " +
 			"non-trivial = the execution produced at least one compressed block from more than 8 bytes of data or contains a Flush",
 		Assumptions: []string{"compress/flate is a correct inflater", "the reference inflater is correct (self-checked against compress/flate on every valid stream)"},
-		Quick:       TierSpec{MaxDev: -1, Merge: false, Shards: 4, ShardDepth: 3, BudgetS: 150},
+		Quick:       TierSpec{MaxDev: -1, Merge: false, Shards: 4, ShardDepth: 3, BudgetS: 600},
 		Thorough:    TierSpec{MaxDev: -1, Merge: false, Shards: 8, ShardDepth: 3, BudgetS: 1700},
 		Harness:     c01Harness,
 	})
